@@ -23,6 +23,7 @@ ASIS = {  # documented counter-examples: cfg -> property that must be violated
     "Lifecycle_listener_asis.cfg": "NoLockCycle",
     "Lifecycle_ping_asis.cfg": "Released",
     "Lifecycle_ping_errsend.cfg": "Released",
+    "Lifecycle_socket_rlock.cfg": "CloseReturns",   # registry read lock held across the hand-over (seeded c17-delivery-holds-listener-rlock)
 }
 WITNESSES = {
     "Lifecycle_socket.cfg": ["W_NoBlockedPair", "W_NoDeliverAfterClose"],
@@ -59,6 +60,9 @@ def run(tier, seed, replay=None):
     asis = {}
     for cfg, f in fasis.items():
         r = f.result()
+        mt = re.search(r"Temporal property (\S+) was violated", r.output)
+        if mt:
+            r.violated = mt.group(1)
         if r.violated != ASIS[cfg]:
             raise vlib.Inconclusive("%s is expected to violate %s (documented counter-example), got %s\n%s" % (cfg, ASIS[cfg], r.violated, r.output[-1500:]))
         asis[cfg] = ASIS[cfg]
